@@ -128,6 +128,10 @@ def run(ctx, rep, tier):
     lab = [tb for tb in tbs if any(e.kind == "LABEL" and e.a == "skipaction" for e in tb.events)]
     rep.check(bool(lab) and all(tb.get("MAYSKIP") is True for tb in lab) and all(any(e.kind == "LABEL" for e in tb.events) for tb in tbs if tb.get("MAYSKIP") is True),
               "C11.a3", TB, "skipaction label iff tag", "skipaction label emission does not coincide with the ACTION_MAY_SKIP tag")
+    skip_atoms = {a for tb in tbs for a in tb.path.atoms if "ACTION_MAY_SKIP" in a}
+    rep.check(len(skip_atoms) == 1 and ".all_subactions()" in next(iter(skip_atoms)) and "transition.actions" in next(iter(skip_atoms)), "C11.a3", TB,
+              "skip tag searched through all (transitively) embedded actions of the transition",
+              f"the skipaction label is decided from {sorted(skip_atoms)}: a break nested deeper than that search emits its goto without the label")
     for tb in lab[:1]:
         e = next(e for e in tb.events if e.kind == "LABEL" and e.a == "skipaction")
         rep.check(e.b == "[[id(transition)]]", "C11.a3", TB, "label expression", "skipaction label name differs from the goto's")
@@ -385,6 +389,11 @@ def run(ctx, rep, tier):
         rep.check(guarded or unsafe_use is None, "C11.f", "CodegenCtx._integer_containing", "width lookup may be None",
                   f"`{var}` comes from a .get(width, None) over widths {keys} and is used in `{unsafe_use}` with no None test: "
                   "any other declared size (the manual's own `size 16`) dies with TypeError instead of a diagnosed error", line=got.lineno)
+
+    # ------------------------------------------------------------------ C11.h allocation calls only on pointer-declared members
+    rep.rule("C11.h", "malloc / free / NULL assignment are only emitted for members declared as pointers (heap strings); raw and in-struct outputs are scalars / arrays")
+    from .c03 import check_alloc_only_heap
+    check_alloc_only_heap(rep, model, E, "C11.h")
 
     # ------------------------------------------------------------------ C11.g inval referenced whenever declared
     rep.rule("C11.g", "a C local declared on every path of feed() is referenced on every path (else -Wunused-but-set-variable under -Wall -Werror)")
